@@ -229,7 +229,16 @@ def driver(args):
         replay = False
     jobs = args.jobs or min(getattr(mod, "JOBS", 16), os.cpu_count() or 4)
     timeout = getattr(mod, "TIMEOUT", {"quick": 900, "thorough": 3600})[tier]
+    warm = getattr(mod, "WARMUP_SHARD", None)
+    pre_reports, pre_problems = [], []
+    if warm is not None and not replay:
+        # one worker first: fills the on-disk JIT cache so that the other workers do not all compile at once
+        w = dict(warm)
+        w["index"] = 10 ** 6
+        pre_reports, pre_problems, _ = run_shards(prop, tier, seed, [w], 1, timeout, False)
     reports, problems, th = run_shards(prop, tier, seed, shards, jobs, timeout, replay)
+    reports = pre_reports + reports
+    problems = pre_problems + problems
     prune_cache(th)
     m = merge(reports)
 
